@@ -238,6 +238,12 @@ def r3(ctx):
         ok = any(swh.cfg.dominates(swh.branch(t, "true").id, n.id) for t in open_tests)
         ok_all &= ok
         ctx.check(ok, R, f"send_with_header:open-check-before:{(dotted(call.func) or '').split('.')[-1]}", m, call, "dominated by the true branch of `self.is_open` (the false branch raises NotOpenError)", "reachable while the socket is not open")
+    # the test is about the moment of queueing: nothing suspends between the open test and the enqueue (close() could run there)
+    enqs = [n for n, c in swh.calls("self._enqueue_message")]
+    for t in open_tests:
+        for en in enqs:
+            aw = [a_ for a_ in swh.awaits_between(t, en) if a_.id != en.id]
+            ctx.check(not aw, R, "send_with_header:no-await-between-open-check-and-enqueue", m, t.ast, "nothing is awaited between the is_open test and the enqueue", f"await at line {aw[0].lineno}: close() can complete there and the message is then held by a closed socket" if aw else "")
     raise_ok = False
     for t in open_tests:
         fb = swh.branch(t, "false")
